@@ -483,9 +483,9 @@ theorem nodeStatus_rec {s s' : State} {frm : Addr} {st : Status} (h : nodeStatus
     all_goals
       rcases setNode_eff h5 with ⟨hs5, e⟩ | ⟨hs5, e⟩ <;> subst e <;>
       first
-        | exact absurd hs5 (by decide)
-        | exact hi.of_node rfl rfl rfl rfl (hN.setA rfl rfl hno)
-        | exact hi.of_node rfl rfl rfl rfl (hN.toI rfl hna.1 ⟨rfl, rfl⟩)
+        | (simp only [reduceCtorEq] at hs5; done)
+        | (refine hi.of_node rfl rfl rfl rfl ?_; apply Part.setA hN <;> first | rfl | exact hno)
+        | (refine hi.of_node rfl rfl rfl rfl ?_; apply Part.toI hN <;> first | rfl | exact hna.1 | exact ⟨rfl, rfl⟩)
   · have hni := hN.i frm n hm
     have hps : n.status = .StatusInactive := hni.2.1
     have hno : s.nodeActive.has n.addr = false := by rw [hni.1]; exact hN.notA_of_getI hm
@@ -494,8 +494,237 @@ theorem nodeStatus_rec {s s' : State} {frm : Addr} {st : Status} (h : nodeStatus
     all_goals
       rcases setNode_eff h5 with ⟨hs5, e⟩ | ⟨hs5, e⟩ <;> subst e <;>
       first
-        | exact absurd hs5 (by decide)
-        | exact hi.of_node rfl rfl rfl rfl (hN.setI rfl ⟨rfl, rfl⟩ hno)
-        | exact hi.of_node rfl rfl rfl rfl (hN.toA rfl hni.1 rfl)
+        | (simp only [reduceCtorEq] at hs5; done)
+        | (refine hi.of_node rfl rfl rfl rfl ?_; apply Part.setI hN <;> first | rfl | exact hno | exact ⟨rfl, rfl⟩)
+        | (refine hi.of_node rfl rfl rfl rfl ?_; apply Part.toA hN <;> first | rfl | exact hni.1)
+
+theorem nodeSweep_rec {s s' : State} (h : nodeSweep s = .ok s') (hi : RecInv s) : RecInv s' := by
+  unfold nodeSweep at h
+  split at h
+  · rw [pure_eq_ok] at h; rw [← h]; exact hi
+  · refine foldlM_inv RecInv _ ?_ _ s s' h hi
+    intro s0 a s1 h1 hp
+    simp only [bind_eq_ok, pure_eq_ok, orPanic_eq_ok] at h1
+    obtain ⟨item, hitem, s2, h2, rfl⟩ := h1
+    exact RecInv.of_nview (s := s2) rfl (setNode_same_rec hp hitem h2 rfl rfl rfl)
+
+theorem nodeExpireStep_rec {s s' : State} {k : Time × Addr} (h : nodeExpireStep s k = .ok s') (hi : RecInv s) :
+    RecInv s' := by
+  unfold nodeExpireStep at h
+  simp only [bind_eq_ok, pure_eq_ok, orPanic_eq_ok] at h
+  obtain ⟨item, hitem, s3, h3, rfl⟩ := h
+  have hN := hi.nodePart
+  have hk : item.addr = k.2 := by
+    rcases getNode_mem hitem with hm | hm
+    · exact (hN.a _ _ hm).1
+    · exact (hN.i _ _ hm).1
+  rcases setNode_eff h3 with ⟨hs3, e⟩ | ⟨hs3, e⟩ <;> subst e
+  · simp only [reduceCtorEq] at hs3
+  · refine hi.of_node rfl rfl rfl rfl ?_
+    apply Part.toI hN <;> first | rfl | exact ⟨rfl, rfl⟩
+
+/-! ### plans -/
+
+theorem planCreate_rec {s s' : State} {frm : Addr} {dur : Dur} {gb : Int} {prices : Coins}
+    (h : planCreate s frm dur gb prices = .ok s') (hi : RecInv s) (hc : CountInv s) : RecInv s' := by
+  obtain ⟨_, rfl⟩ := planCreate_eff h
+  have hA : s.planActive.has (s.planCount.getD 0 + 1) = false := by
+    cases hh : s.planActive.has (s.planCount.getD 0 + 1) with
+    | false => rfl
+    | true =>
+      obtain ⟨p, hp⟩ := (Tbl.has_iff _ _).mp hh
+      have := hc.plans _ p (Or.inl hp)
+      omega
+  exact hi.of_plan rfl rfl rfl rfl (hi.planPart.setI rfl rfl hA)
+
+theorem planStatus_rec {s s' : State} {frm : Addr} {id : Nat} {st : Status}
+    (h : planStatus s frm id st = .ok s') (hi : RecInv s) : RecInv s' := by
+  unfold planStatus at h
+  simp only [bind_eq_ok, pure_eq_ok, require_eq_ok, orReject_eq_ok] at h
+  obtain ⟨p, hp, _, _, s3, h3, rfl⟩ := h
+  have hL := hi.planPart
+  rcases getPlan_mem hp with hm | hm
+  · have hpa := hL.a id p hm
+    have hps : p.status = .StatusActive := hpa.2
+    have hno : s.planInactive.has p.id = false := by rw [hpa.1]; exact hL.notI_of_getA hm
+    cases st <;>
+      simp only [hps, reduceCtorEq, and_self, and_true, and_false, if_true, if_false] at h3
+    all_goals
+      rcases setPlan_eff h3 with ⟨hs3, e⟩ | ⟨hs3, e⟩ <;> subst e <;>
+      first
+        | (simp only [reduceCtorEq] at hs3; done)
+        | (refine hi.of_plan rfl rfl rfl rfl ?_; apply Part.setA hL <;> first | rfl | exact hno)
+        | (refine hi.of_plan rfl rfl rfl rfl ?_; apply Part.toI hL <;> first | rfl | exact hpa.1)
+  · have hpi := hL.i id p hm
+    have hps : p.status = .StatusInactive := hpi.2
+    have hno : s.planActive.has p.id = false := by rw [hpi.1]; exact hL.notA_of_getI hm
+    cases st <;>
+      simp only [hps, reduceCtorEq, and_self, and_true, and_false, if_true, if_false] at h3
+    all_goals
+      rcases setPlan_eff h3 with ⟨hs3, e⟩ | ⟨hs3, e⟩ <;> subst e <;>
+      first
+        | (simp only [reduceCtorEq] at hs3; done)
+        | (refine hi.of_plan rfl rfl rfl rfl ?_; apply Part.setI hL <;> first | rfl | exact hno)
+        | (refine hi.of_plan rfl rfl rfl rfl ?_; apply Part.toA hL <;> first | rfl | exact hpi.1)
+
+theorem planLink_rec {s s' : State} {frm : Addr} {id : Nat} {node : Addr}
+    (h : planLink s frm id node = .ok s') (hi : RecInv s) : RecInv s' := by
+  unfold planLink at h
+  simp only [bind_eq_ok, pure_eq_ok, require_eq_ok, orReject_eq_ok] at h
+  obtain ⟨p, _, _, _, _, _, rfl⟩ := h
+  exact hi.of_tables rfl rfl rfl rfl rfl rfl
+
+theorem planUnlink_rec {s s' : State} {frm : Addr} {id : Nat} {node : Addr}
+    (h : planUnlink s frm id node = .ok s') (hi : RecInv s) : RecInv s' := by
+  unfold planUnlink at h
+  simp only [bind_eq_ok, pure_eq_ok, require_eq_ok, orReject_eq_ok] at h
+  obtain ⟨p, _, _, _, rfl⟩ := h
+  exact hi.of_tables rfl rfl rfl rfl rfl rfl
+
+/-! ### the remaining steps: nothing `RecInv` reads is touched -/
+
+theorem nodeSubscribe_rec {s s' : State} {frm node : Addr} {gb hr : Int} {denom : Denom}
+    (h : nodeSubscribe s frm node gb hr denom = .ok s') (hi : RecInv s) : RecInv s' := RecInv.of_nview (nodeSubscribe_nview h) hi
+theorem planSubscribe_rec {s s' : State} {frm : Addr} {id : Nat} {denom : Denom}
+    (h : planSubscribe s frm id denom = .ok s') (hi : RecInv s) : RecInv s' := RecInv.of_nview (planSubscribe_nview h) hi
+theorem subCancel_rec {s s' : State} {frm : Addr} {id : Nat} (h : subCancel s frm id = .ok s') (hi : RecInv s) : RecInv s' :=
+  RecInv.of_nview (subCancel_nview h) hi
+theorem subAllocate_rec {s s' : State} {frm toA : Addr} {id : Nat} {bytes : Int}
+    (h : subAllocate s frm id toA bytes = .ok s') (hi : RecInv s) : RecInv s' := RecInv.of_nview (subAllocate_nview h) hi
+theorem sessStart_rec {s s' : State} {frm : TextAddr} {id : Nat} {node : Addr}
+    (h : sessStart s frm id node = .ok s') (hi : RecInv s) : RecInv s' := RecInv.of_nview (sessStart_nview h) hi
+theorem sessUpdate_rec {s s' : State} {frm : Addr} {id : Nat} {up down dur : Int} {sig : SigSpec}
+    (h : sessUpdate s frm id up down dur sig = .ok s') (hi : RecInv s) : RecInv s' := RecInv.of_nview (sessUpdate_nview h) hi
+theorem sessEnd_rec {s s' : State} {frm : Addr} {id : Nat} (h : sessEnd s frm id = .ok s') (hi : RecInv s) : RecInv s' :=
+  RecInv.of_nview (sessEnd_nview h) hi
+theorem swap_rec {s s' : State} {frm recv : Addr} {hash : Bytes} {amt : Int}
+    (h : swap s frm hash recv amt = .ok s') (hi : RecInv s) : RecInv s' := RecInv.of_nview (swap_nview h) hi
+theorem mintBeginBlock_rec (s : State) (hi : RecInv s) : RecInv (mintBeginBlock s) :=
+  RecInv.of_nview (nview_mintBeginBlock_go _ s) hi
+theorem distrSweep_rec (s : State) (hi : RecInv s) : RecInv (distrSweep s) :=
+  RecInv.of_nview (nview_of_mframe (distrSweep_mframe s)) hi
+theorem payoutStep_rec {s s' : State} {k : Time × Nat} (h : payoutStep s k = .ok s') (hi : RecInv s) : RecInv s' :=
+  RecInv.of_nview (payoutStep_nview h) hi
+theorem sessionStep_rec {s s' : State} {k : Time × Nat} (h : sessionStep s k = .ok s') (hi : RecInv s) : RecInv s' :=
+  RecInv.of_nview (sessionStep_nview h) hi
+theorem subscriptionStep_rec {s s' : State} {d : Dur} {k : Time × Nat} (h : subscriptionStep d s k = .ok s')
+    (hi : RecInv s) : RecInv s' := RecInv.of_nview (subscriptionStep_nview h) hi
+
+/-! ### whole operations -/
+
+theorem handle_rec {s s' : State} {m : Msg} (h : m.handle s = .ok s') (hi : RecInv s) (hc : CountInv s) : RecInv s' := by
+  cases m <;> simp only [Msg.handle] at h
+  case provRegister => exact provRegister_rec h hi
+  case provUpdate => exact provUpdate_rec h hi
+  case nodeRegister => exact nodeRegister_rec h hi
+  case nodeUpdate => exact nodeUpdate_rec h hi
+  case nodeStatus => exact nodeStatus_rec h hi
+  case nodeSubscribe => exact nodeSubscribe_rec h hi
+  case planCreate => exact planCreate_rec h hi hc
+  case planStatus => exact planStatus_rec h hi
+  case planLink => exact planLink_rec h hi
+  case planUnlink => exact planUnlink_rec h hi
+  case planSubscribe => exact planSubscribe_rec h hi
+  case subCancel => exact subCancel_rec h hi
+  case subAllocate => exact subAllocate_rec h hi
+  case sessStart => exact sessStart_rec h hi
+  case sessUpdate => exact sessUpdate_rec h hi
+  case sessEnd => exact sessEnd_rec h hi
+  case swap => exact swap_rec h hi
+
+theorem deliver_rec (s : State) (m : Msg) (hi : RecInv s) (hc : CountInv s) : RecInv (deliver s m).1 := by
+  have h0 : RecInv { s with events := [] } := RecInv.of_nview (s := s) rfl hi
+  have c0 : CountInv { s with events := [] } := CountInv.of_view (s := s) rfl hc
+  unfold deliver
+  simp only []
+  cases hr : (do m.validateBasic; m.handle { s with events := [] } : M State) with
+  | ok s' =>
+    simp only [bind_eq_ok] at hr
+    obtain ⟨_, _, hh⟩ := hr
+    exact handle_rec hh h0 c0
+  | error e => cases e <;> exact h0
+
+theorem beginBlock_rec {s s' : State} {t : Time} (h : beginBlock s t = .ok s') (hi : RecInv s) : RecInv s' := by
+  unfold beginBlock haltOf at h
+  split at h <;> try contradiction
+  rename_i s'' hs
+  simp only [Except.ok.injEq] at h
+  subst h
+  unfold subscriptionBeginBlock at hs
+  refine foldlM_inv RecInv _ ?_ _ _ _ hs ?_
+  · intro s0 k s1 h1 hp
+    rw [panicIfErr_eq_ok] at h1
+    exact payoutStep_rec h1 hp
+  · exact distrSweep_rec _ (mintBeginBlock_rec _ (RecInv.of_nview (s := s) rfl hi))
+
+theorem endBlock_rec {s s' : State} (h : endBlock s = .ok s') (hi : RecInv s) : RecInv s' := by
+  unfold endBlock haltOf at h
+  split at h <;> try contradiction
+  rename_i s2 hs
+  split at hs <;> try contradiction
+  rename_i s3 hs3
+  simp only [Except.ok.injEq] at hs h
+  subst hs; subst h
+  unfold vpnEndBlock nodeEndBlock nodeExpire sessionEndBlock subscriptionEndBlock at hs3
+  simp only [bind_eq_ok] at hs3
+  obtain ⟨s1, ⟨sa, ha, hb⟩, sb, hc, hd⟩ := hs3
+  have i0 : RecInv sa := nodeSweep_rec ha (RecInv.of_nview (s := s) rfl hi)
+  have i1 : RecInv s1 := foldlM_inv RecInv _ (fun s0 k s1 h1 hp => nodeExpireStep_rec h1 hp) _ _ _ hb i0
+  have i2 : RecInv sb := foldlM_inv RecInv _ (fun s0 k s1 h1 hp => sessionStep_rec h1 hp) _ _ _ hc i1
+  have i3 : RecInv s3 := foldlM_inv RecInv _ (fun s0 k s1 h1 hp => subscriptionStep_rec h1 hp) _ _ _ hd i2
+  exact RecInv.of_nview (s := s3) rfl i3
+
+theorem gov_rec (s : State) (c : ParamChange) (hi : RecInv s) : RecInv ((gov s c).getD s) := by
+  cases hg : gov s c with
+  | none => exact hi
+  | some s' => exact RecInv.of_nview (gov_nview hg) hi
+
+theorem step_rec {s s' : State} {op : Op} (h : step s op = some s') (hi : RecInv s) (hc : CountInv s) : RecInv s' := by
+  cases op with
+  | tx m =>
+    simp only [step, Option.some.injEq] at h
+    rw [← h]; exact deliver_rec s m hi hc
+  | begin t =>
+    simp only [step] at h
+    split at h
+    · rename_i s1 hb
+      simp only [Option.some.injEq] at h; rw [← h]; exact beginBlock_rec hb hi
+    · contradiction
+  | endB =>
+    simp only [step] at h
+    split at h
+    · rename_i s1 hb
+      simp only [Option.some.injEq] at h; rw [← h]; exact endBlock_rec hb hi
+    · contradiction
+  | gov c =>
+    simp only [step, Option.some.injEq] at h
+    rw [← h]; exact gov_rec s c hi
+
+theorem genesis_base_rec (g : Genesis) : RecInv g.base := by
+  rw [recInv_iff]; exact ⟨Part.nil, Part.nil, Part.nil⟩
+
+theorem genesis_rec (g : Genesis) : RecInv g.state :=
+  RecInv.of_nview (nview_of_mframe (genesis_mframe g)) (genesis_base_rec g)
+
+/-- `RecInv` (together with `CountInv`) holds after every operation of every history from a state that
+satisfies both. -/
+theorem rec_all_histories (ops : List Op) (s : State) (hi : RecInv s) (hc : CountInv s) :
+    ∀ s' ∈ runTrace s ops, RecInv s' := by
+  induction ops generalizing s with
+  | nil => intro s' h; simp [runTrace] at h
+  | cons op rest ih =>
+    intro s' h
+    simp only [runTrace] at h
+    cases hst : step s op with
+    | none => simp [hst] at h
+    | some s1 =>
+      simp only [hst, List.mem_cons] at h
+      have i1 := step_rec hst hi hc
+      rcases h with h | h
+      · rw [h]; exact i1
+      · exact ih s1 i1 (step_count hst hc) s' h
+
+theorem rec_genesis_histories (g : Genesis) (ops : List Op) : ∀ s ∈ runTrace g.state ops, RecInv s :=
+  rec_all_histories ops g.state (genesis_rec g) (genesis_count g)
 
 end Hub.Model
